@@ -97,6 +97,20 @@ def run(rep, props, replay=None):
                 bad.append("more than degree+1 non-zero functions at a point")
         if bad:
             rep.violation("B-splines: " + "; ".join(bad), {**opts, "x": C.hexf(xs)})
+    # the same grid, size and degree asked for on TWO domains one after the other (the default domain = range of the grid, then a
+    # wider explicit one, as PSplines.predict does on a sub-range): each is the Cox-de Boor basis of ITS domain
+    for (p, nf) in ((2, 5), (3, 6), (1, 4)):
+        xs = np.unique(np.round(rng.uniform(0, 1, size=7) * 64) / 64)
+        xs = np.concatenate([[0.0], xs[(xs > 0) & (xs < 1)], [1.0]])
+        for (a, b) in ((0.0, 1.0), (-0.5, 1.25), (0.0, 1.0), (0.0, 2.0)):
+            with warnings.catch_warnings():
+                warnings.simplefilter("ignore")
+                Bm = np.asarray(_basis_bsplines(xs, n_functions=nf, degree=p, domain_min=a, domain_max=b), float)
+            nseg = nf - p
+            t = runq.add(f"mclose {C.qlit(1e-9 * max(1.0, float(nseg) ** p))} (bs_model {C.qlit(a)} {C.qlit(b)} {nseg}%nat {p}%nat {C.qlist(xs)}) {C.qmat(Bm)}")
+            todo.append((t, "B-spline basis equals the Cox-de Boor B-splines on the equally spaced extended knots (same grid, several domains in a row)",
+                         ("bsplines-domains", p, nf, a, b, xs.tobytes(), len(todo)),
+                         {"family": "bsplines", "degree": p, "n_functions": nf, "domain": [a, b], "n_points": len(xs)}, True))
     # Legendre vs Bonnet
     for n in ([1, 3, 6] if quick else range(1, 16)):
         xs = np.round(rng.uniform(-1, 1, size=7) * 128) / 128
